@@ -180,6 +180,57 @@ fn run(out: &mut Out, prog: &[Step], mixed: bool, rng: &mut Rng) -> Vec<String> 
     logical
 }
 
+/// the order-agnostic operations available for every element type, on zero-sized elements: the
+/// same twin execution (row-major world vs mixed orders with inserted switches)
+fn run_anon<E: Elem + Clone>(out: &mut Out, prog: &[Step], mixed: bool, rng: &mut Rng) -> Vec<String> {
+    let mut w = World::<E>::new(out);
+    let mut logical = Vec::new();
+    for s in prog {
+        if needs(s).iter().any(|r| w.regs[*r].is_none()) { logical.push("skipped".to_string()); continue; }
+        if mixed && rng.below(3) == 0 {
+            let live: Vec<usize> = (0..5).filter(|r| w.regs[*r].is_some()).collect();
+            if !live.is_empty() { let r = *rng.pick(&live); w.order_op(out, r, "switch", None); }
+        }
+        let obs_reg = match s {
+            Step::New(r, a, b, base) => {
+                let order = if mixed { *rng.pick(&ORDERS) } else { Order::RowMajor };
+                w.new_matrix(out, *r, Order::RowMajor, *a, *b, *base);
+                if order == Order::ColMajor { w.order_op(out, *r, "switch", None); }
+                *r
+            }
+            Step::Transpose(r) => { w.order_op(out, *r, "transpose", None); *r }
+            Step::SwapRows(r, x, y) => { w.swap_vecs(out, *r, "swap_rows", *x, *y); *r }
+            Step::SwapCols(r, x, y) => { w.swap_vecs(out, *r, "swap_cols", *x, *y); *r }
+            Step::SwapElems(r, i, j) => { w.swap_elems(out, *r, *i, *j); *r }
+            Step::Overwrite(a, b) => { w.overwrite(out, *a, *b); *a }
+            Step::Views(r, axis) => { w.views(out, *r, "views", axis, "-", "-"); w.views(out, *r, "viewsmut", axis, "B", "-"); *r }
+            Step::Nth(r, kind, n) => { w.nth(out, *r, kind, *n, "-"); *r }
+            _ => { logical.push("skipped".to_string()); continue; }
+        };
+        if w.regs[obs_reg].is_some() { logical.push(w.lview_any(out, obs_reg)); } else { logical.push("none".to_string()); }
+    }
+    for r in 0..8 { if w.regs[r].is_some() { w.drop_reg(out, r); } }
+    logical
+}
+
+fn twin_anon<E: Elem + Clone>(out: &mut Out, rng: &mut Rng, n: usize) {
+    for k in 0..n {
+        let prog: Vec<Step> = random_program(rng, 12).into_iter().filter(|s| matches!(s, Step::New(..) | Step::Transpose(..) | Step::SwapRows(..) | Step::SwapCols(..) | Step::SwapElems(..) | Step::Overwrite(..) | Step::Views(..) | Step::Nth(..))).collect();
+        out.case(&format!("program {k} elem={} zero-sized={} world=row-major steps={}", E::KIND, E::ZST, prog.len()));
+        let a = run_anon::<E>(out, &prog, false, rng);
+        out.nontrivial();
+        out.case(&format!("program {k} elem={} zero-sized={} world=mixed-orders steps={}", E::KIND, E::ZST, prog.len()));
+        let b = run_anon::<E>(out, &prog, true, rng);
+        out.nontrivial();
+        for (i, (x, y)) in a.iter().zip(&b).enumerate() {
+            if x != y {
+                out.oracle_fail(&format!("program {k} on {} elements, step {i} ({:?}): logical observation differs between the row-major run and the mixed-order run: `{}` vs `{}`", E::KIND, prog[i], x.chars().take(160).collect::<String>(), y.chars().take(160).collect::<String>()));
+                break;
+            }
+        }
+    }
+}
+
 pub fn run_c07(out: &mut Out, rng: &mut Rng, tier: Tier) -> String {
     ledger_reset();
     let (n, len) = if tier == Tier::Quick { (250, 10) } else { (3000, 25) };
@@ -202,6 +253,9 @@ pub fn run_c07(out: &mut Out, rng: &mut Rng, tier: Tier) -> String {
             out.count(&format!("step:{}", format!("{:?}", s).split('(').next().unwrap()));
         }
     }
+    // zero-sized element types (the unit type; a zero-sized type with counted construction / destruction)
+    twin_anon::<()>(out, rng, n / 5);
+    twin_anon::<Zd>(out, rng, n / 5);
     // exhaustive equality: every pair of shapes up to 3x3 (degenerate ones included) x four order
     // combinations x {same contents, one element different}; reflexivity and symmetry
     for ar in 0..=3usize {
